@@ -157,6 +157,8 @@ class MerkleCache(object):
         self.length = 0
         self.level = []
         self.depth_higher = 0
+        # Count of truncate() calls; lets awaiting readers detect a concurrent truncation
+        self.truncations = 0
         self.initialized = Event()
 
     def _segment_length(self):
@@ -174,14 +176,19 @@ class MerkleCache(object):
 
     async def _extend_to(self, length):
         '''Extend the length of the cache if necessary.'''
-        if length <= self.length:
-            return
-        # Start from the beginning of any final partial segment.
-        # Retain the value of depth_higher; in practice this is fine
-        start = self._leaf_start(self.length)
-        hashes = await self.source_func(start, length - start)
-        self.level[start >> self.depth_higher:] = self._level(hashes)
-        self.length = length
+        while length > self.length:
+            # Start from the beginning of any final partial segment.
+            # Retain the value of depth_higher; in practice this is fine
+            cur_length, truncations = self.length, self.truncations
+            start = self._leaf_start(cur_length)
+            hashes = await self.source_func(start, length - start)
+            # The cache may have been extended by another request, or the source truncated
+            # by a reorg, while the read was awaited; the hashes then no longer line up with
+            # the cache or are stale.  Retry from the current state.
+            if self.length != cur_length or self.truncations != truncations:
+                continue
+            self.level[start >> self.depth_higher:] = self._level(hashes)
+            self.length = length
 
     async def _level_for(self, length):
         '''Return a (level_length, final_hash) pair for a truncation
@@ -209,6 +216,8 @@ class MerkleCache(object):
             raise TypeError('length must be an integer')
         if length <= 0:
             raise ValueError('length must be positive')
+        # The source changed from here on even if the cache does not reach that far
+        self.truncations += 1
         if length >= self.length:
             return
         length = self._leaf_start(length)
@@ -230,12 +239,20 @@ class MerkleCache(object):
         if index >= length:
             raise ValueError('index must be less than length')
         await self.initialized.wait()
-        await self._extend_to(length)
-        leaf_start = self._leaf_start(index)
-        count = min(self._segment_length(), length - leaf_start)
-        leaf_hashes = await self.source_func(leaf_start, count)
-        if length < self._segment_length():
-            return self.merkle.branch_and_root(leaf_hashes, index, tsc_format=tsc_format)
-        level = await self._level_for(length)
-        return self.merkle.branch_and_root_from_level(
-            level, leaf_hashes, index, self.depth_higher, tsc_format=tsc_format)
+        while True:
+            truncations = self.truncations
+            await self._extend_to(length)
+            leaf_start = self._leaf_start(index)
+            count = min(self._segment_length(), length - leaf_start)
+            leaf_hashes = await self.source_func(leaf_start, count)
+            if length < self._segment_length():
+                result = self.merkle.branch_and_root(leaf_hashes, index, tsc_format=tsc_format)
+            else:
+                level = await self._level_for(length)
+                if truncations != self.truncations:
+                    continue
+                result = self.merkle.branch_and_root_from_level(
+                    level, leaf_hashes, index, self.depth_higher, tsc_format=tsc_format)
+            # A truncation while the reads above were awaited means they may be inconsistent
+            if truncations == self.truncations:
+                return result
